@@ -10,9 +10,12 @@ enabled in the model (trace inclusion), `bad@n:tok` otherwise.
       c<i> call   o<i> transmit ok   f<i> transmit failed (call returned)   x<i> cancel
       s<i> requester enters its select    R<i>r<k> returned the response made from stanza k
       R<i>c returned the context error    k<i> caller closes the response
+      d<i> caller reads the response to its end (or into the error in its content: suffix X of p…)
       p<kind><id><r|e|n|g|t>[S] peer stanza (r result, e error; n normal, g get, t set are never
         looked up; S: explicit other stanza namespace)   H<k> handler got stanza k
       g serve loop enters the hand-off select   h serve loop starts waiting for the close
+      C the application closes the output stream (later transmissions fail before they write)
+      f<i> right after c<i> on a broken / closed output: the call failed at once
     C06 rcpt <ids> <trace>      ids `,`-joined, tokens: c o f x s as above, T<i> returned nil,
       R<i>c returned the context error, q<id> receipt for id looked up (and deleted),
       d the handler's channel send, U<id> Unhandled(id) called
@@ -66,7 +69,21 @@ def applyTok (cfg : Cfg) (s : St) (tok : String) : Option St :=
   | 's' :: r => do
     let i ← numOf r
     if s.rpc i = .waiting then some s else none
-  | 'k' :: r => do let i ← numOf r; step cfg s (.close i)
+  | 'k' :: r => do
+    let i ← numOf r
+    -- the caller's Close; after a failed read the response has closed itself and this is a no-op
+    match s.rpc i with
+    | .done (.reply _) true => some s
+    | _ => step cfg s (.close i)
+  | 'd' :: r => do
+    -- the caller reads the whole response: an error in its content closes it (errCloser)
+    let i ← numOf r
+    match s.rpc i with
+    | .done (.reply k) false =>
+      match s.hist[k]? with
+      | some st => if st.bad then step cfg s (.readErr i) else some s
+      | none => none
+    | _ => none
   | 'R' :: r =>
     match (String.ofList r).splitOn "r" with
     | [a, b] => do
@@ -83,15 +100,18 @@ def applyTok (cfg : Cfg) (s : St) (tok : String) : Option St :=
   | 'p' :: kc :: r0 => do
     let kind ← parseKind kc
     -- optional trailing S: the stanza carries the other stanza namespace explicitly
-    let (r, ns) := if r0.getLast? = some 'S' then (r0.dropLast, Ns.other) else (r0, Ns.stream)
+    let (r1, ns) := if r0.getLast? = some 'S' then (r0.dropLast, Ns.other) else (r0, Ns.stream)
+    -- optional X: the content of the stanza cannot be read to its end (malformed / truncated)
+    let (r, bad) := if r1.getLast? = some 'X' ∨ r1.getLast? = some 'T' then (r1.dropLast, true) else (r1, false)
     let t ← r.getLast?
     let id ← numOf r.dropLast
     -- r result, e error: looked up;  n normal / g get / t set: never looked up
     let resp ← if t = 'r' ∨ t = 'e' then some true else if t = 'n' ∨ t = 'g' ∨ t = 't' then some false else none
-    step cfg (settle cfg s) (.read ⟨kind, id, resp, ns⟩)
+    step cfg (settle cfg s) (.read ⟨kind, id, resp, ns, bad⟩)
   | 'H' :: r => do
     let k ← numOf r
     if s.hlog.head? = some k then some s else none
+  | ['C'] => step cfg s .closeOut
   | ['g'] => match s.spc with
     | .offering .. => some s
     | _ => none
@@ -111,7 +131,7 @@ def summary (cfg : Cfg) (n : Nat) (s0 : St) : String :=
   let s := settle cfg s0
   let outs := (List.range n).map fun i => showOutcome (s.rpc i)
   let hl := s.hlog.reverse.map toString
-  let probe := if s.spc = .idle then "live" else "stall"
+  let probe := if s.spc = .idle then "live" else if s.spc = .dead then "dead" else "stall"
   s!"out={joinList outs "/"} hl={joinList hl} probe={probe}"
 
 def replayAll (cfg : Cfg) : List String → Nat → St → Except String St
@@ -138,6 +158,7 @@ structure GState where
   insel : List Nat := []      -- requesters released into their select
   entered : Bool := false     -- serve loop released into its hand-off select
   handed : Bool := false      -- serve loop parked after a hand-off (before it waits for the close)
+  drained : List Nat := []    -- requesters whose explicit Close has been done (k is offered once)
   trace : List String := []   -- reversed
   stop : Bool := false
 
@@ -170,6 +191,13 @@ def autoEvents (cfg : Cfg) (n : Nat) (g : GState) : Nat → GState
         | some s' => autoEvents cfg n { g with st := s', insel := g.insel.erase i, trace := s!"R{i}c" :: g.trace } fuel
         | none => g
 
+/-- the element the serve loop is working on cannot be read to its end: `Serve` will end with a
+stream error, for which it needs the output lock -/
+def pendingBad (s : St) : Bool :=
+  match s.spc with
+  | .offering _ k | .waitClose _ k => (match s.hist[k]? with | some st => st.bad | none => false)
+  | _ => false
+
 def busySending (n : Nat) (s : St) : Bool := (List.range n).any fun i => s.rpc i == .sending
 
 /-- peer stanzas worth sending for these requesters -/
@@ -178,7 +206,7 @@ def peerAlphabet (reqs : List (Kind × Nat × Ns)) : List String :=
     let kc := showKind k
     let sfx := if ns == .other then "S" else ""
     let other := if k == .iq then 'm' else 'i'
-    [s!"p{kc}{id}r{sfx}", s!"p{kc}{id}e{sfx}", s!"p{other}{id}e{sfx}", s!"p{kc}{id}{if k == .iq then "g" else "n"}",
+    [s!"p{kc}{id}r{sfx}", s!"p{kc}{id}e{sfx}", s!"p{kc}{id}rX{sfx}", s!"p{other}{id}e{sfx}", s!"p{kc}{id}{if k == .iq then "g" else "n"}",
      s!"p{kc}{id}r{if ns == .other then "" else "S"}"]
   (per ++ ["pi9r", "pm9e"]).eraseDups
 
@@ -187,11 +215,11 @@ def enabled (cfg : Cfg) (reqs : List (Kind × Nat × Ns)) (g : GState) : List St
   let n := reqs.length
   let s := g.st
   let perReq := (List.range n).flatMap fun i =>
-    (if s.rpc i == .fresh && !busySending n s then [s!"c{i}"] else []) ++
-    (if s.rpc i == .sending then [s!"o{i}", s!"f{i}"] else []) ++
+    (if s.rpc i == .fresh && !busySending n s && !pendingBad s then [s!"c{i}"] else []) ++
+    (if s.rpc i == .sending && !(s.broken || s.outClosed) then [s!"o{i}", s!"f{i}"] else []) ++
     (if !s.cancelled i && (s.rpc i == .sending || s.rpc i == .waiting) then [s!"x{i}"] else []) ++
     (if s.rpc i == .waiting && !g.insel.contains i then [s!"s{i}"] else []) ++
-    (match s.rpc i with | .done (.reply _) false => [s!"k{i}"] | _ => [])
+    (match s.rpc i with | .done (.reply _) false => [s!"k{i}", s!"d{i}"] | .done (.reply _) true => (if g.drained.contains i then [] else [s!"k{i}"]) | _ => [])
   let serveFree := match s.spc with
     | .idle => !g.handed
     | .offering j _ => g.entered && ctxDone cfg s j
@@ -199,11 +227,12 @@ def enabled (cfg : Cfg) (reqs : List (Kind × Nat × Ns)) (g : GState) : List St
   let peers := if serveFree then
       (peerAlphabet reqs).filter fun t =>
         -- an unhandled get is answered by the serve loop itself: it needs the output lock
-        !(t.endsWith "g" && busySending n s)
+        !((t.endsWith "g" || t.contains 'X') && busySending n s)
     else []
   let serve := (match s.spc with | .offering .. => if g.entered then [] else ["g"] | _ => []) ++
     (if g.handed then ["h"] else [])
-  perReq ++ peers ++ serve
+  let closeOut := if !s.outClosed && !busySending n s && s.hist.length ≥ 2 && s.hist.length % 5 == 0 then ["C"] else []
+  perReq ++ peers ++ serve ++ closeOut
 
 def applyAction (cfg : Cfg) (n : Nat) (g : GState) (tok : String) : Option GState := do
   let s' ← applyTok cfg g.st tok
@@ -212,6 +241,7 @@ def applyAction (cfg : Cfg) (n : Nat) (g : GState) (tok : String) : Option GStat
     | 's' :: r => match numOf r with | some i => { g1 with insel := i :: g1.insel } | none => g1
     | ['g'] => { g1 with entered := true }
     | ['h'] => { g1 with handed := false }
+    | 'k' :: r => match numOf r with | some i => { g1 with drained := i :: g1.drained } | none => g1
     | 'p' :: _ =>
       -- a miss is handled at once; a hit parks the serve loop after the lookup
       let g' := { g1 with entered := false }
@@ -219,6 +249,16 @@ def applyAction (cfg : Cfg) (n : Nat) (g : GState) (tok : String) : Option GStat
         match s'.hlog.head? with | some k => { g' with trace := s!"H{k}" :: g'.trace } | none => g'
       else g'
     | 'f' :: r => match numOf r with | some i => { g1 with insel := g1.insel.erase i } | none => g1
+    | 'c' :: r =>
+      -- on a broken or closed output the transmission fails at once: the call returns
+      match numOf r with
+      | some i =>
+        if s'.broken || s'.outClosed then
+          match steps cfg s' [.sendFail i, .dereg i] with
+          | some s'' => { g1 with st := s'', trace := s!"f{i}" :: g1.trace }
+          | none => g1
+        else g1
+      | none => g1
     | _ => g1
   pure (autoEvents cfg n g2 (2 * n + 2))
 
